@@ -62,4 +62,17 @@ SEEDS = [
   "edits": [e("filesystem/ext4/directoryentry.go", '''	case dirFileTypeBlock:
 		return iofs.ModeDevice
 ''', '')]},
+ {"name": "c19-dos-year-mask-too-narrow", "properties": ["C19"], "expect": "C19-d|",
+  "edits": [e("filesystem/fat12/directoryentry.go", "year := int(d>>9) + 1980", "year := int((d>>9)&0x3f) + 1980")]},
+ {"name": "c19-dos-month-taken-from-bit-4", "properties": ["C19"], "expect": "C19-d|",
+  "edits": [e("filesystem/fat12/directoryentry.go", "month := time.Month((d >> 5) & 0x0f)", "month := time.Month((d >> 4) & 0x0f)")]},
+ {"name": "c19-refactor-dos-hour-mask-explicit", "properties": ["C19"], "silent": True, "expect": "",
+  "edits": [e("filesystem/fat12/directoryentry.go", "hour := int(t >> 11)", "hour := int((t >> 11) & 0x1f)"),
+            e("filesystem/fat12/directoryentry.go", "year := int(d>>9) + 1980", "year := int((d>>9)&0x7f) + 1980")]},
+ {"name": "c19-px-dir-test-on-unmasked-mode", "properties": ["C19"], "expect": "C19-c|",
+  "edits": [e("filesystem/iso9660/rockridge.go", "	if m&os.ModeDir == os.ModeDir {", "	if m&^os.ModePerm == os.ModeDir {")]},
+ {"name": "c07-trim-pops-without-emptiness-test", "properties": ["C07"], "expect": "C07-c|",
+  "edits": [e("filesystem/squashfs/lru.go", "for len(l.cache) > maxBlocks && len(l.cache) > 0 {", "for len(l.cache) > maxBlocks {")]},
+ {"name": "c07-refactor-trim-bound-by-max", "properties": ["C07"], "silent": True, "expect": "",
+  "edits": [e("filesystem/squashfs/lru.go", "for len(l.cache) > maxBlocks && len(l.cache) > 0 {", "for len(l.cache) > max(maxBlocks, 0) {")]},
 ]
